@@ -14,6 +14,7 @@ import (
 	"os"
 	"os/exec"
 	"path/filepath"
+	"runtime/debug"
 	"sort"
 	"strings"
 	"sync"
@@ -612,6 +613,9 @@ func main() {
 			if r := recover(); r != nil {
 				// a harness error is not agreement: report it as a broken check
 				fmt.Fprintf(os.Stderr, "HARNESS ERROR: %v\n", r)
+				if os.Getenv("VH_STACK") != "" {
+					os.Stderr.Write(debug.Stack())
+				}
 				c.Res.Notes = append(c.Res.Notes, fmt.Sprintf("HARNESS ERROR: %v", r))
 				status = 3
 			}
